@@ -1,6 +1,7 @@
 #![allow(dead_code)]
 mod alloc;
 mod bz2;
+mod default_ports;
 mod entries;
 mod findings;
 mod registry;
